@@ -316,3 +316,104 @@ Definition kind_code (k : run_kind) : Z :=
 (* the tolerance seen by the tasks of the LAST run of a history of runs *)
 Definition last_run_tol {A : Type} (tf tg : A) (history : list run_kind) (k : run_kind) : A :=
   tol_of tf tg (last (history ++ [k]) k).
+
+(* ------------------------------------------------------------------ *)
+(* Histories of operations on ONE simulation: the tolerance of every   *)
+(* task, including tasks computed ON DEMAND inside another operation   *)
+(* ------------------------------------------------------------------ *)
+(* compute / clean('keepresults') / clean('computed') / get_efield(slot k) /
+   jvec / jtvec / gradient / misfit.  The state keeps which forward fields are
+   stored and the `_computed` flag (misfit calls compute() only when it is
+   unset).  The cached gradient is NOT modelled: `gradient` always emits its
+   tasks, so the task lists of the model are a superset of the real ones. *)
+Inductive hop : Type :=
+| HCompute | HCleanKeep | HCleanComputed | HGet (k : nat)
+| HJvec | HJtvec | HGradient | HMisfit.
+
+Record hstate : Type := mkHS { hs_stored : list bool; hs_computed : bool }.
+
+(* What a collector does with the SHARED solver_opts['tol'] right before it
+   hands its task over: TWrite k = writes the tolerance of kind k
+   (self.tol_forward / self.tol_gradient); TTrust = uses what is there. *)
+Inductive tol_write : Type := TWrite (k : run_kind) | TTrust.
+Definition tol_writes : Type := run_kind -> tol_write.
+
+(* requests of one operation in COLLECTION order: a task of a kind for a slot,
+   or the shared register being set to the tolerance of a kind around a stage *)
+Inductive req : Type := RTask (k : run_kind) (i : nat) | RSet (k : run_kind).
+
+Definition all_slots (stored : list bool) : list nat := seq 0 (List.length stored).
+
+(* get_efield inside a collector: a forward task for a slot that is not stored *)
+Definition need (stored : list bool) (i : nat) : list req :=
+  if nth i stored false then [] else [RTask KForward i].
+
+Definition forward_all (stored : list bool) : list req :=
+  map (RTask KForward) (all_slots stored).
+
+(* [wrap] = the adjoint stages set the register to tol_gradient on entry and
+   back to tol_forward on exit (a context manager around their process_map) *)
+Definition wrapped (wrap : bool) (k : run_kind) (body : list req) : list req :=
+  if wrap then RSet k :: body ++ [RSet KForward] else body.
+
+Definition op_requests (wrap : bool) (st : hstate) (o : hop) : list req :=
+  let s := hs_stored st in
+  match o with
+  | HCompute => forward_all s
+  | HCleanKeep | HCleanComputed => []
+  | HGet k => if Nat.ltb k (List.length s) then need s k else []
+  | HJvec => wrapped wrap KJvec
+               (flat_map (fun i => need s i ++ [RTask KJvec i]) (all_slots s))
+  | HJtvec | HGradient =>
+      (if hs_computed st then flat_map (need s) (all_slots s) else forward_all s)
+      ++ wrapped wrap KBackprop (map (RTask KBackprop) (all_slots s))
+  | HMisfit => if hs_computed st then [] else forward_all s
+  end.
+
+Definition set_true (k : nat) (l : list bool) : list bool :=
+  map (fun p => if Nat.eqb (fst p) k then true else snd p) (combine (seq 0 (List.length l)) l).
+
+Definition op_state (st : hstate) (o : hop) : hstate :=
+  let s := hs_stored st in
+  match o with
+  | HCompute => mkHS (map (fun _ => true) s) true
+  | HCleanKeep => mkHS (map (fun _ => false) s) (hs_computed st)
+  | HCleanComputed => mkHS (map (fun _ => false) s) false
+  | HGet k => mkHS (set_true k s) (hs_computed st)
+  | HJvec => mkHS (map (fun _ => true) s) (hs_computed st)
+  | HJtvec | HGradient => mkHS (map (fun _ => true) s) true
+  | HMisfit => if hs_computed st then st else mkHS (map (fun _ => true) s) true
+  end.
+
+Definition task_tol {A : Type} (tf tg : A) (tw : tol_writes) (reg : A) (k : run_kind) : A :=
+  match tw k with TWrite k' => tol_of tf tg k' | TTrust => reg end.
+
+(* thread the shared register through the requests; a task carries what the
+   register holds when its collector hands it over (file mode: what is written
+   to the hand-over file; memory mode: the dict is shared, and with collectors
+   that write their own tolerance the last write before dispatch is the same) *)
+Fixpoint carry {A : Type} (tf tg : A) (tw : tol_writes) (reg : A) (rq : list req)
+  : A * list (run_kind * nat * A) :=
+  match rq with
+  | [] => (reg, [])
+  | RSet k :: r => carry tf tg tw (tol_of tf tg k) r
+  | RTask k i :: r =>
+      let t := task_tol tf tg tw reg k in
+      (fst (carry tf tg tw t r), (k, i, t) :: snd (carry tf tg tw t r))
+  end.
+
+Fixpoint run_hist {A : Type} (tf tg : A) (tw : tol_writes) (wrap : bool)
+         (st : hstate) (reg : A) (ops : list hop) : list (run_kind * nat * A) :=
+  match ops with
+  | [] => []
+  | o :: r =>
+      snd (carry tf tg tw reg (op_requests wrap st o))
+      ++ run_hist tf tg tw wrap (op_state st o)
+                  (fst (carry tf tg tw reg (op_requests wrap st o))) r
+  end.
+
+Definition task_ok {A : Type} (tf tg : A) (t : run_kind * nat * A) : Prop :=
+  snd t = tol_of tf tg (fst (fst t)).
+
+(* the seeded variant: no collector writes, the adjoint stages wrap *)
+Definition trusting : tol_writes := fun _ => TTrust.
